@@ -33,8 +33,10 @@ TrMaxId   == Hdr.max_id
 TrStride  == Hdr.stride
 
 VARIABLES l,
-  flt       \* fault tier: a storage fault was injected into the operation in progress
-tvars == <<vars, l, flt>>
+  flt,      \* fault tier: a storage fault was injected into the operation in progress
+  skew      \* fault tier: a metadata put of save_extension LANDED but was reported as an error, so the handle's
+            \* idea of the metadata object's version is stale: its next metadata put fails its precondition
+tvars == <<vars, l, flt, skew>>
 
 Ev == Rec[l]
 IsEv(e) == l <= Len(Rec) /\ Ev.e = e /\ l' = l + 1
@@ -115,6 +117,23 @@ TrFaultHealthy ==
   \/ IsBeF("doc") /\ Ev.kind = "put" /\ Ev.mode = "create" /\ AddDocFail(Landed) /\ cur.id = Ev.id /\ cur.val = Ev.val
   \/ IsBeF("intent") /\ Ev.kind = "put" /\ IntentFail(Ev.seq, Landed)
         /\ Ev.id = cur.id /\ Ev.prev = cur.prev /\ Ev.post = (IF cur.op = "update" THEN cur.val ELSE NoDoc)
+
+\* save_extension / remove_extension: the single metadata put failed.  The extension stays in memory (dirty, a later
+\* flush persists it) and the handle stays healthy (trace-level only: Collection.tla has no object versions)
+TrExtFail ==
+  /\ IsBeF("col_meta") /\ Ev.kind = "put" /\ up /\ pc = "ext_put" /\ CbMayProceed
+  /\ dMeta' = IF Landed THEN MemMeta ELSE dMeta
+  /\ (Landed => dMeta' = [maxId |-> Ev.maxid, idx |-> SeqToSet(Ev.idx), ext |-> Ev.ext])
+  /\ pc' = "fail_ret"
+  /\ UNCHANGED <<dDoc, dIds, dCP, dWM, dInt, dIdx, volatile, cur, nextSeq, ackedIds>>
+
+\* the organic consequence of a landed one: the next conditional metadata put of this handle is refused by the
+\* store - save_extension fails again (healthy), a flush fails and poisons the handle (the return says so)
+TrPrecond ==
+  /\ IsEv("be") /\ Ev.cls = "col_meta" /\ Ev.res = "precondition" /\ skew /\ up
+  /\ pc \in {"ext_put", "fl_idx"}
+  /\ pc' = IF pc = "ext_put" THEN "fail_ret" ELSE pc
+  /\ UNCHANGED <<durable, volatile, cur, nextSeq, ackedIds>>
 
 \* the delete that compensates a failed create (Ok, or nothing there)
 TrAddComp ==
@@ -220,17 +239,21 @@ TrObs == IsEv("obs") /\ ObsOk /\ UNCHANGED vars
 ---------------------------------------------------------------------------
 TraceInit ==
   /\ Init
-  /\ l = 1 /\ flt = FALSE
+  /\ l = 1 /\ flt = FALSE /\ skew = FALSE
 
 FltStep ==
-  flt' = IF Ev.e = "be" /\ Ev.res \in {"fault", "fault_landed"} THEN TRUE
-         ELSE IF Ev.e \in {"call", "init"} THEN FALSE ELSE flt
+  /\ flt' = IF Ev.e = "be" /\ Ev.res \in {"fault", "fault_landed"} THEN TRUE
+            ELSE IF Ev.e = "be" /\ Ev.res = "precondition" /\ skew THEN TRUE
+            ELSE IF Ev.e \in {"call", "init"} THEN FALSE ELSE flt
+  \* a new handle (reopen, reboot) reads the version again
+  /\ skew' = IF Ev.e = "be" /\ Ev.cls = "col_meta" /\ Ev.res = "fault_landed" /\ pc = "ext_put" THEN TRUE
+             ELSE IF Ev.e \in {"init", "crash"} \/ (Ev.e = "call" /\ Ev.op = "open") THEN FALSE ELSE skew
 
 TraceNext ==
   /\ \/ TrReset \/ TrInit \/ TrCall \/ TrRet
      \/ TrWm \/ TrDoc \/ TrIntent \/ TrColMeta \/ TrColIds \/ TrCp
      \/ TrIdxCommit \/ TrIdxInit \/ TrIdxObj
-     \/ TrFaultNoLand \/ TrFaultHealthy \/ TrAddComp \/ TrDead
+     \/ TrFaultNoLand \/ TrFaultHealthy \/ TrExtFail \/ TrPrecond \/ TrAddComp \/ TrDead
      \/ TrCrash \/ TrCbBegin \/ TrCbRemove \/ TrCbEnd \/ TrObs
   /\ FltStep
 
